@@ -20,7 +20,9 @@ server script (how the peer answers every attempt of that request):
     shape  "cells" | "http": with "http" the body is  cell, <a 6-unit block that looks like a response
            head announcing 2 units>, cell, cell  -- still ordinary body bytes of that reply
 caller op:
-    kind   "preload" | "read" | "readk" | "release" | "drain" | "close" | "stream" | "ignore"
+    kind   "preload" | "read" | "readk" | "release" | "drain" | "close" | "stream" | "ignore" |
+           "streamk" (take k pieces of stream() then abandon the generator: how = break | close | gc, then
+           release_conn()) | "read1" (read1(big) once, release_conn()) | "read1loop" (read1(big) until empty)
     k      units for readk
     hold   True: the caller keeps a reference to the response object until the end of the history;
            False: it lets go of it right after the op (refcount -> IOBase.__del__ -> close())
@@ -35,6 +37,7 @@ Nothing here judges the property: the recorded events go to TLC (spec/Exchange_T
 """
 from __future__ import annotations
 
+import gc
 import re
 import socket
 import warnings
@@ -57,10 +60,10 @@ def cell(kind: str, rid: int, cid: int, n: int, i: int, size: int = UNIT) -> byt
     return c + b"." * (size - len(c))
 
 
-def head(kind: str, rid: int, cid: int, n: int, status: int, lines: list) -> bytes:
+def head(kind: str, rid: int, cid: int, n: int, status: int, lines: list, size: int = 0) -> bytes:
     reason = {200: "OK", 204: "No Content", 304: "Not Modified", 103: "Early Hints"}[status]
     h = f"HTTP/1.1 {status} {reason}\r\nX-Tag: {kind}{rid:02d}c{cid:02d}n{n:02d}\r\n" + "".join(x + "\r\n" for x in lines)
-    pad = HEAD - len(h) - len("X-Pad: \r\n\r\n")
+    pad = (size or HEAD) - len(h) - len("X-Pad: \r\n\r\n")
     if pad < 1:
         raise AssertionError("head too long")
     return (h + "X-Pad: " + "p" * pad + "\r\n\r\n").encode("latin-1")
@@ -72,6 +75,14 @@ def chunk(data: bytes) -> bytes:
 
 
 LAST_CHUNK = b"0;" + b"x" * (UNIT - 6) + b"\r\n\r\n"       # one unit: terminator + empty trailer
+# chunked + shape "http": ONE chunk (cell, head-shaped block, cell, cell) so that the tail in flight starts
+# in the middle of chunk data.  Its size line is one unit glued to the (shortened) head; the CRLF closing the
+# chunk is glued to the terminator unit.
+BIG_CHUNK_LEN = 3 * UNIT + HEAD
+BIG_CHUNK_HDR = b"%x;" % BIG_CHUNK_LEN + b"x" * (UNIT - 2 - len(b"%x;" % BIG_CHUNK_LEN)) + b"\r\n"
+BIG_CHUNK_END = b"\r\n0;" + b"x" * (UNIT - 8) + b"\r\n\r\n"
+READ1_BIG = 1 << 16
+HOWS = ("break", "close", "gc")
 
 
 def parse_cells(data: bytes, size: int) -> list:
@@ -182,9 +193,14 @@ class World:
         nocut = cut == NOCUT
         late = sc.get("late", 0) if nocut else 0
         lines, status = [], 200
+        head_size, term = HEAD, LAST_CHUNK
         if sc.get("shape") == "http":      # abstract units: cell, head-shaped block, cell, cell
-            assert fr == "cl" and ln == 4
-            lines.append(f"Content-Length: {3 * UNIT + HEAD}")
+            assert fr in ("cl", "chunked") and ln == 4
+            if fr == "cl":
+                lines.append(f"Content-Length: {BIG_CHUNK_LEN}")
+            else:
+                lines.append("Transfer-Encoding: chunked")
+                head_size, term = HEAD - UNIT, BIG_CHUNK_END
             body_units = [cell("r", rid, cid, n, 0), head("r", rid, cid, n, 200, [f"Content-Length: {2 * UNIT}"]),
                           cell("r", rid, cid, n, 1), cell("r", rid, cid, n, 2)]
         elif fr == "chunked":
@@ -204,13 +220,15 @@ class World:
             lines.append("Connection: close")
         if not nocut:
             body_units = body_units[:cut]
-        head_bytes = head("r", rid, cid, n, status, lines)
-        now_units = [head_bytes] + body_units + ([LAST_CHUNK] if fr == "chunked" and nocut else [])
+        head_bytes = head("r", rid, cid, n, status, lines, head_size)
+        if head_size != HEAD:
+            head_bytes += BIG_CHUNK_HDR
+        now_units = [head_bytes] + body_units + ([term] if fr == "chunked" and nocut else [])
         later_units = []
         if late:                           # trailing units (possibly the whole reply) are still in flight
             keep = len(now_units) - late
             now_units, later_units = now_units[:keep], now_units[keep:]
-        is_cell = lambda u: u is not LAST_CHUNK and u is not head_bytes and not u.startswith(b"HTTP/")
+        is_cell = lambda u: u is not term and u is not head_bytes and not u.startswith(b"HTTP/")
         nbody = sum(1 for u in body_units if is_cell(u))
         data = b"".join(now_units)
         cells_now = sum(1 for u in now_units if is_cell(u))
@@ -306,7 +324,7 @@ def run_history(hist: dict) -> dict:
                     ev["status"] = int(r.status)
                 events.append(ev)
                 if r is not None:
-                    usz = UNIT - 6 if sc["fr"] == "chunked" else UNIT
+                    usz = UNIT - 6 if (sc["fr"] == "chunked" and sc.get("shape") != "http") else UNIT
                     got, res, err = b"", "ok", ""
                     try:
                         k = op["kind"]
@@ -329,6 +347,37 @@ def run_history(hist: dict) -> dict:
                                 got += piece
                         elif k == "ignore":
                             pass
+                        elif k == "streamk":       # take k pieces, then abandon the generator
+                            how, taken = op.get("how", "break"), 0
+                            if how == "break":
+                                for piece in r.stream(usz):
+                                    got += piece
+                                    taken += 1
+                                    if taken >= op["k"]:
+                                        break
+                            else:
+                                gen = r.stream(usz)
+                                for piece in gen:
+                                    got += piece
+                                    taken += 1
+                                    if taken >= op["k"]:
+                                        break
+                                if how == "close":
+                                    gen.close()
+                                else:
+                                    del gen
+                                    gc.collect()
+                            r.release_conn()
+                        elif k == "read1":         # one read1 asking for (more than) everything, then release
+                            got = r.read1(READ1_BIG)
+                            r.release_conn()
+                        elif k == "read1loop":     # read1 asking for everything until it returns nothing
+                            while True:
+                                piece = r.read1(READ1_BIG)
+                                if not piece:
+                                    break
+                                got += piece
+                            r.release_conn()
                         else:
                             raise AssertionError(k)
                     except Exception as ex:
